@@ -154,3 +154,5 @@ func vParam(name string, def int) int {
 	return def
 }
 func vFixMapOrderType(t string) {}
+
+func vNow() int64 { return 0 }
